@@ -51,8 +51,8 @@ var (
 	profiles  = []string{"auto", "streaming", "standard"}
 	balancers = []string{"priority", "round-robin", "least-connections"}
 	// "" = the backend sends no Content-Type header at all
-	ctypes = []string{"application/json", "text/event-stream", "application/x-ndjson", "text/plain", "application/octet-stream", ""}
-	statuses  = []int{200, 200, 200, 201, 400, 404, 429, 500, 503}
+	ctypes   = []string{"application/json", "text/event-stream", "application/x-ndjson", "text/plain", "application/octet-stream", ""}
+	statuses = []int{200, 200, 200, 201, 400, 404, 429, 500, 503}
 )
 
 const readTimeout = 1000 * time.Millisecond
@@ -512,11 +512,12 @@ func enumerate(t *testing.T) {
 
 func TestC02(t *testing.T) {
 	defer rig.StopAll()
-	rec.SetRule("each case = 1..3 scripted raw-TCP backends (refuse, close/reset before headers, garbage, complete, fault after headers / after k body bytes with close|rst|stall, truncated chunked, short Content-Length; bodies 0..256 KiB self-identifying; 0..6 random headers) x engine x proxy profile x balancer, one POST through the full stack read byte-for-byte; single-fault shapes are enumerated in front of a healthy second backend, combinations are rapid-generated. non-trivial = >=2 endpoints and the first-dispatched backend fails after writing its status line; distinct by (engine, profile, balancer, fault/framing tuple, first backend)")
+	rec.SetRule("each case = 1..3 scripted raw-TCP backends (refuse, close/reset before headers, garbage, complete, fault after headers / after k body bytes with close|rst|stall, truncated chunked, short Content-Length; bodies 0..256 KiB self-identifying; 0..6 random headers) x engine x proxy profile x balancer, one POST through the full stack read byte-for-byte; single-fault shapes are enumerated in front of a healthy second backend, combinations are rapid-generated. Sub-check 'concurrent': 2..16 clients at a time receive complete self-identifying bodies (1 KB..2 MiB, needing many reads) from 2..3 backends; each response must be byte for byte the body of the backend its X-Backend-Id names. non-trivial = >=2 endpoints and the first-dispatched backend fails after writing its status line; distinct by (engine, profile, balancer, fault/framing tuple, first backend)")
 	rec.Assume("a truncated response delivered as a prefix of one attempt is allowed; only mixing, duplication or alteration is a violation")
-	if ev.Replay(t, rec, "fault", runCase) {
+	if ev.Replay(t, rec, "fault", runCase) || ev.Replay(t, rec, "concurrent", runConc) {
 		return
 	}
 	enumerate(t)
 	ev.Check(t, rec, "fault", rec.Pick(250, 1500), genCase, runCase)
+	ev.Check(t, rec, "concurrent", rec.Pick(12, 200), genConc, runConc)
 }
